@@ -5,7 +5,7 @@ from __future__ import annotations
 import ast
 
 from .. import anchors as A
-from ..astutil import kwarg, mentions_attr, mentions_name, subscript_keys, unparse
+from ..astutil import enclosing_tests, kwarg, mentions_attr, mentions_name, subscript_keys, unparse
 from ..cfg import cfg_of, is_raise
 from ..effects import EXT_NONDET, EXT_NONDET_PREFIX, GLOBAL_WRITE, NONDET, NONDET_OK, SPAWN, STORE_WRITE, effects_of
 from ..flow import flow_of
@@ -577,7 +577,10 @@ def store_guard(ctx: Ctx) -> None:
         for r in cfg.stmts(ast.Raise):
             if "ValueError" not in unparse(r.stmt.exc):
                 continue
-            if any(pred(t, pol) for t, pol in facts_at(cfg, r.id)):
+            # the raise must be *directly* controlled by the guard (path facts inherited
+            # from an earlier `if …: raise` do not count)
+            direct = [f_ for t, pol in enclosing_tests(st.node, r.stmt) for f_ in conjuncts(t, pol)]
+            if any(pred(t, pol) for t, pol in direct):
                 return r
         return None
 
